@@ -34,6 +34,10 @@ fn run_one<S: std::hash::BuildHasher + Default + Send + Sync>(rng: &mut SplitMix
     } else {
         HashMap::with_capacity_and_hasher(cap as usize, S::default())
     };
+    // reclaim eagerly in most runs, so that whatever was retired by an interrupted call is
+    // really gone when the map is looked at afterwards
+    let batch = [1usize, 1, 2, 0][rng.below(4) as usize];
+    let map = if batch > 0 { map.with_collector(seize::Collector::new().batch_size(batch)) } else { map };
     let mut std: StdMap = BTreeMap::new();
     let mut val = 0i64;
     let fill = rng.below(universe as u64 + 1) as u32;
@@ -58,6 +62,8 @@ fn run_one<S: std::hash::BuildHasher + Default + Send + Sync>(rng: &mut SplitMix
             .map(|t| t.bins.iter().any(|b| matches!(b, crate::dump::CBin::Tree { .. })))
             .unwrap_or(false);
         let kind = rng.below(4);
+        // if the implementation takes the process down, the last AT line names the scenario
+        println!("AT panic round={} kind={} (0/1 compute_if_present guard/pinned, 2 retain, 3 retain_force) batch={} || {}", round, kind, batch, desc);
         r.injections += 1;
         if trees {
             r.in_tree_bins += 1;
@@ -251,7 +257,13 @@ pub fn run(seed: u64, n: u64) -> PanicResult {
     let mut rng = SplitMix64(seed ^ 0x9A71C);
     for _ in 0..n {
         let hasher = [H_IDENTITY, H_ZERO, H_ZERO, H_SAMEBIN, H_MIX, H_AHASH][rng.below(6) as usize];
+        // reclaimed memory is quarantined: touching or re-retiring it is reported, not executed
+        crate::hooks::mem_start();
         crate::with_hasher!(hasher, S, { run_one::<S>(&mut rng, &mut r, hasher) });
+        let mem = crate::hooks::mem_finish();
+        for v in mem.violations.iter().take(2) {
+            r.failures.push(format!("after a panic in a callback: {} at {}:{} (hasher {})", v.what, v.file, v.line, HASHER_NAMES[hasher as usize]));
+        }
         if r.failures.len() > 20 {
             break;
         }
